@@ -3,6 +3,7 @@
   render → Python's literal reader is the identity).
 -/
 import Pyab.Generated.Config
+import Pyab.Properties.EvaluatorPremise
 import Pyab.Generated.LRTables
 import Pyab.Model.PyStrLit
 import Pyab.Proofs.StrLit
